@@ -256,12 +256,26 @@ func name(kind string, cp []int) {
 	e := blank("Name")
 	e.Kind, e.Txt = kind, cp
 	s := string(ev.Bytes(cp)) // septets as bytes (all < 128)
+	// the packed name is HELD (the returned element with its Buffer, no copy) while another name of the same length - the
+	// septets reversed and complemented - is packed twice by both functions; only then is it read
+	other := make([]byte, len(cp))
+	for i, c := range cp {
+		other[len(cp)-1-i] = byte(c^0x55) & 0x7f
+	}
+	disturb := func() {
+		for r := 0; r < 2; r++ {
+			_ = nasConvert.FullNetworkNameToNas(string(other))
+			_ = nasConvert.ShortNetworkNameToNas(string(other))
+		}
+	}
 	guard(&e, func() {
 		if kind == "Full" {
 			n := nasConvert.FullNetworkNameToNas(s)
+			disturb()
 			e.Out = append([]int{int(n.GetLen())}, ev.Ints(n.Buffer)...)
 		} else {
 			n := nasConvert.ShortNetworkNameToNas(s)
+			disturb()
 			e.Out = append([]int{int(n.GetLen())}, ev.Ints(n.Buffer)...)
 		}
 	})
